@@ -36,6 +36,14 @@ pub enum Op {
     SetMax(usize),
     Despawn,
     Yield,
+    PipeIn(usize, usize),
+    Pipe(usize, usize, usize),
+    Send(usize, usize),
+    CloseCh(usize),
+    Next(usize),
+    Drain(usize),
+    DropOut(usize),
+    SetDepth(usize, usize),
 }
 
 #[derive(Clone, Debug, PartialEq)]
@@ -45,6 +53,7 @@ pub struct Program {
     pub kinds: String,
     pub objects: usize,
     pub gates: usize,
+    pub chans: usize,
     pub threads: Vec<Vec<Op>>,
 }
 
@@ -70,6 +79,14 @@ impl Op {
             Op::SetMax(n) => write!(out, "setmax {} ", n).unwrap(),
             Op::Despawn => out.push_str("despawn "),
             Op::Yield => out.push_str("yield "),
+            Op::PipeIn(o, c) => write!(out, "pipein {} {} ", o, c).unwrap(),
+            Op::Pipe(o, c, s) => write!(out, "pipe {} {} {} ", o, c, s).unwrap(),
+            Op::Send(c, n) => write!(out, "send {} {} ", c, n).unwrap(),
+            Op::CloseCh(c) => write!(out, "closech {} ", c).unwrap(),
+            Op::Next(s) => write!(out, "next {} ", s).unwrap(),
+            Op::Drain(s) => write!(out, "drain {} ", s).unwrap(),
+            Op::DropOut(s) => write!(out, "dropout {} ", s).unwrap(),
+            Op::SetDepth(s, n) => write!(out, "setdepth {} {} ", s, n).unwrap(),
         }
     }
 
@@ -79,6 +96,8 @@ impl Op {
             Op::After(..) => "after", Op::FSync(..) => "fsync", Op::Suspend(..) => "suspend", Op::Await(..) => "await", Op::PollOnce(..) => "pollonce",
             Op::SyncF(..) => "syncf", Op::DropF(..) => "dropf", Op::Resume(..) => "resume", Op::Open(..) => "open",
             Op::DropObj(..) => "dropobj", Op::SetMax(..) => "setmax", Op::Despawn => "despawn", Op::Yield => "yield",
+            Op::PipeIn(..) => "pipein", Op::Pipe(..) => "pipe", Op::Send(..) => "send", Op::CloseCh(..) => "closech", Op::Next(..) => "next",
+            Op::Drain(..) => "drain", Op::DropOut(..) => "dropout", Op::SetDepth(..) => "setdepth",
         }
     }
 }
@@ -86,6 +105,7 @@ impl Op {
 impl Program {
     pub fn to_text(&self) -> String {
         let mut s = format!("pool {} objects {} gates {} ", self.pool, self.kinds, self.gates);
+        if self.chans > 0 { s.push_str(&format!("chans {} ", self.chans)); }
         for t in &self.threads {
             s.push_str("thread ");
             for op in t { op.write(&mut s); }
@@ -101,6 +121,8 @@ impl Program {
         p.expect("objects")?; let kinds = p.next()?.to_string(); let objects = kinds.len();
         if !kinds.chars().all(|c| c == 'd' || c == 'q') { return Err(format!("bad object kinds {}", kinds)); }
         p.expect("gates")?; let gates = p.num()?;
+        let mut chans = 0;
+        if p.peek() == Some("chans") { p.pos += 1; chans = p.num()?; }
         let mut threads = vec![];
         while p.pos < p.toks.len() {
             p.expect("thread")?;
@@ -109,7 +131,7 @@ impl Program {
             p.expect("end")?;
             threads.push(ops);
         }
-        Ok(Program { pool, kinds, objects, gates, threads })
+        Ok(Program { pool, kinds, objects, gates, chans, threads })
     }
 }
 
@@ -148,6 +170,14 @@ impl<'a> Parser<'a> {
             "setmax" => Op::SetMax(self.num()?),
             "despawn" => Op::Despawn,
             "yield" => Op::Yield,
+            "pipein" => { let o = self.num()?; Op::PipeIn(o, self.num()?) }
+            "pipe" => { let o = self.num()?; let c = self.num()?; Op::Pipe(o, c, self.num()?) }
+            "send" => { let c = self.num()?; Op::Send(c, self.num()?) }
+            "closech" => Op::CloseCh(self.num()?),
+            "next" => Op::Next(self.num()?),
+            "drain" => Op::Drain(self.num()?),
+            "dropout" => Op::DropOut(self.num()?),
+            "setdepth" => { let s = self.num()?; Op::SetDepth(s, self.num()?) }
             other => return Err(format!("unknown op {}", other)),
         })
     }
@@ -278,7 +308,7 @@ pub fn generate(rng: &mut Rng, cfg: &GenConfig) -> Program {
         while !opener_ops.is_empty() { let i = rng.below(opener_ops.len()); ops.push(opener_ops.remove(i)); if rng.chance(1, 3) { ops.push(Op::Yield); } }
         threads.push(ops);
     }
-    Program { pool, kinds, objects, gates, threads }
+    Program { pool, kinds, objects, gates, chans: 0, threads }
 }
 
 fn gen_body(rng: &mut Rng, cfg: &GenConfig, enclosing: usize, objects: usize, depth: usize) -> Vec<Op> {
@@ -290,4 +320,48 @@ fn gen_body(rng: &mut Rng, cfg: &GenConfig, enclosing: usize, objects: usize, de
         else { body.push(Op::Desync(o, gen_body(rng, cfg, o, objects, depth + 1))); }
     }
     body
+}
+
+/// Programs around one or two pipes: a creator thread, a producer thread that sends in bursts, a
+/// consumer thread (for `pipe`), concurrent sync/desync on the target, optional close / drop of the
+/// output / drop of the target.
+pub fn generate_pipes(rng: &mut Rng) -> Program {
+    let pool = 1 + rng.below(3);
+    let objects = 1 + rng.below(2);
+    let kinds: String = (0..objects).map(|_| 'd').collect();
+    let through = rng.chance(2, 3);
+    let mut threads: Vec<Vec<Op>> = vec![];
+    let o = rng.below(objects);
+    // creator (and, for pipe_in, some traffic on the object)
+    let mut creator = vec![];
+    if rng.chance(1, 3) { creator.push(Op::Desync(o, vec![])); }
+    if through { creator.push(Op::Pipe(o, 0, 0)); } else { creator.push(Op::PipeIn(o, 0)); }
+    if through && rng.chance(1, 3) { creator.push(Op::SetDepth(0, 1 + rng.below(5))); }
+    let total = 1 + rng.below(8);
+    if through {
+        // the creator is also the consumer (the output stream lives in its frame)
+        let reads = rng.below(total + 1);
+        for _ in 0..reads { creator.push(Op::Next(0)); if rng.chance(1, 4) { creator.push(Op::Yield); } }
+        let c = rng.below(3);
+        if c == 0 { creator.push(Op::Drain(0)); } else if c == 1 { creator.push(Op::DropOut(0)); }
+    } else {
+        for _ in 0..rng.below(3) { creator.push(Op::Sync(o, vec![])); }
+    }
+    threads.push(creator);
+    // producer
+    let mut prod = vec![];
+    let mut left = total;
+    while left > 0 { let n = 1 + rng.below(left.min(3)); prod.push(Op::Send(0, n)); left -= n; if rng.chance(1, 2) { prod.push(Op::Yield); } }
+    // a consumer that drains needs the input to end; otherwise closing is optional
+    let must_close = threads[0].iter().any(|op| matches!(op, Op::Drain(_)));
+    if must_close || rng.chance(1, 2) { prod.push(Op::CloseCh(0)); }
+    threads.push(prod);
+    // other traffic on the object
+    if rng.chance(1, 2) {
+        let mut t = vec![];
+        for _ in 0..1 + rng.below(3) { if rng.chance(1, 2) { t.push(Op::Sync(o, vec![])); } else { t.push(Op::Desync(o, vec![])); } }
+        if !through && rng.chance(1, 4) { t.push(Op::DropObj(o)); }
+        threads.push(t);
+    }
+    Program { pool, kinds, objects, gates: 0, chans: 1, threads }
 }
